@@ -384,6 +384,15 @@ fn main() {
         let exhaustive = thorough || i < 2 || name.starts_with("ecdsa");
         cx.detached(key, &others, false, h, b"hello world, this is signed\n", exhaustive, &format!("detached-bin-{name}"));
         cx.detached(key, &others, true, h, b"line one\nline two\r\nthree \r x\n", exhaustive && i < 2, &format!("detached-text-{name}"));
+        // text documents that end right at the line-ending normaliser's 512-octet window (one octet below, at, above
+        // it and at the second window): an inserted or removed CR / LF at the edge must not go unnoticed
+        if i < 2 || thorough {
+            for n in [511usize, 512, 513, 1023, 1024] {
+                let mut d: Vec<u8> = (0..n).map(|j| if j % 97 == 96 { b'\n' } else { b'a' + (j % 26) as u8 }).collect();
+                if n % 2 == 0 { *d.last_mut().unwrap() = b'\r'; }
+                cx.detached(key, &others[..1], true, h, &d, false, &format!("detached-text-window-{name}"));
+            }
+        }
         if i < 3 || thorough {
             cx.inline(key, false, b"inline payload 123", &format!("inline-bin-{name}"));
             cx.inline(key, true, b"text\npayload\r\n", &format!("inline-text-{name}"));
